@@ -615,7 +615,7 @@ def run_shard(ctx):
     warnings.simplefilter("ignore", DeprecationWarning)
     from pyoak.legacy.node import AwareASTNode
 
-    U = legacy_universe()
+    U = legacy_universe(runtime_only=(ctx.shard % 2 == 0))
     signal.signal(signal.SIGALRM, _alarm)
     for case in ctx.cases(ctx.params["histories"]):
         rng = ctx.rng(case)
